@@ -415,7 +415,7 @@ func runC17(w *World, c *Check) {
 			got[a[strings.LastIndex(a, ".")+1:]] = fa.R.R(st.Val)
 		}
 		ok := got["Flags"] == "0" && got["RRC"] == "0" && got["SndSeqNum"] == "0" && fa.M(`payload`, got["Payload"]) &&
-			fa.M(`\(crypto/etype\.EType\.GetHMACBitLength\(crypto\.GetEtype\(key\.KeyType\)#0\) / 8\)`, got["EC"])
+			fa.M(`(?:uint16\()?\(crypto/etype\.EType\.GetHMACBitLength\(crypto\.GetEtype\(key\.KeyType\)#0\) / 8\)\)?`, got["EC"])
 		c.Decide(ok, "C17.consts", FuncKey(fn), "fields", w.Pos(fn.Pos()), "initiator Wrap token: flags 0, RRC 0, EC = GetHMACBitLength()/8 of the key's etype, the caller's payload", fmt.Sprintf("fields %v", got))
 	}
 	ruleFalseHasError(w, c, "C17.faithful", "gssapi.(*MICToken).Verify", "gssapi.(*WrapToken).Verify")
